@@ -504,15 +504,20 @@ def runMethods (byOrigin : Bool) (t canPtr : String) (toks : List String) : Stri
 
 /-- `register <root>* | {<path>><imp>,<imp>…}*` — registration from the roots in order; answers every
     package's import table as path=0/1 (resolved to non-nil) -/
-def runRegister (fixed : Bool) (toks : List String) : String :=
+def runRegister (fixed guardRoots : Bool) (toks : List String) : String :=
   let roots := toks.takeWhile (· != "|")
   let nodes : Register.Graph := (toks.dropWhile (· != "|")).drop 1 |>.map fun t =>
     match t.splitOn ">" with
     | [p, is] => ⟨unhex p, if is == "" then [] else (is.splitOn ",").map unhex⟩
     | _ => ⟨unhex t, []⟩
-  let u := roots.foldl (fun u r => if (u.lookup (unhex r)).isSome then u else Register.register fixed nodes (nodes.length + 1) (unhex r) u) []
-  String.intercalate " " ((sortByStr (·.1) u).map fun e =>
-    hex e.1 ++ ":" ++ String.intercalate "," ((sortByStr (·.1) e.2).map fun i => hex i.1 ++ "=" ++ (if i.2 then "1" else "0")))
+  let u := Register.loadRoots guardRoots fixed nodes (nodes.length + 1) (roots.map unhex) []
+  -- the table of a package is the one of its latest registration; a package registered twice is listed
+  let ks := Register.keys u
+  let latest := (sortByStr id ks.eraseDups).filterMap fun k => (u.lookup k).map fun t => (k, t)
+  let twice := (sortByStr id ks.eraseDups).filter fun k => (ks.filter (· == k)).length > 1
+  String.intercalate " " (latest.map fun e =>
+    hex e.1 ++ ":" ++ String.intercalate "," ((sortByStr (·.1) e.2).map fun i => hex i.1 ++ "=" ++ (if i.2 then "1" else "0"))) ++
+  " twice=" ++ String.intercalate "," (twice.map hex)
 
 /-- `locate <dirsegs> {<pkgpathsegs>;<modpath>;<moddir>}*` segments joined by `/`, `-` = no module -/
 def segs (s : String) : Locate.Path := if s == "" || s == "." then [] else (s.splitOn "/").map String.toList
@@ -629,7 +634,7 @@ def handle (fx : String → Bool) (line : String) : String :=
   | "partial" :: self :: names :: om :: toks => C18Drv.run (fx "F15") (fx "F10") self names om toks
   | "tables" :: toks => C13Drv.runTables (fx "F12a") toks
   | "methods" :: t :: canPtr :: toks => C13Drv.runMethods (fx "F12c") t canPtr toks
-  | "register" :: toks => C13Drv.runRegister (fx "F12b") toks
+  | "register" :: toks => C13Drv.runRegister (fx "F12b") (fx "F24") toks
   | "locate" :: dir :: toks => C13Drv.runLocate dir toks
   | "sumrt" :: kvs =>
     let rec pairs : List String → List (List Char × List Char)
